@@ -186,7 +186,12 @@ Definition keyless_entries : list string :=
 Definition k10 : bool :=
   forallb (fun f => implb (str_in (fn_name f) keyless_entries) (fn_unsafe f || negb (fn_public f))) fns.
 
-Definition wf_key_known : bool := k1 && k2 && k3 && k4 && k6 && k7 && k8 && k9 && k10.  (* everything but the known finding F4 *)
+(* K11: no type of the crate implements a trait parametrised by the key (AsMut<ThreadKey>, BorrowMut<ThreadKey>, ..): such an
+   impl on a key holder lends out `&mut ThreadKey` — a Keyable — while the holder keeps whatever else it owns, a live guard
+   in the case of the error of a poisoned try *)
+Definition k11 : bool := match key_trait_impls with [] => true | _ => false end.
+
+Definition wf_key_known : bool := k1 && k2 && k3 && k4 && k6 && k7 && k8 && k9 && k10 && k11.  (* everything but the known finding F4 *)
 Definition wf_key : bool := wf_key_known && k5.
 
 (* ---------------------------------------------------------------- C15: data confinement, as decidable conditions *)
@@ -296,7 +301,8 @@ Definition c14_offending_fns : list (string * string * string) :=
 Definition c14_offending_impls : list (string * string) :=
   filter (fun x => (str_in (fst x) key_carriers || str_in (fst x) hold_carriers || str_in (fst x) key_holders) &&
                    str_in (snd x) ["Clone"; "Copy"; "Default"; "IntoIterator"]) trait_impls ++
-  map (fun c => (c, "Send")) (filter holder_sendable key_holders).
+  map (fun c => (c, "Send")) (filter holder_sendable key_holders) ++
+  map (fun x => (fst x, (snd x ++ "<ThreadKey>")%string)) key_trait_impls.
 Definition c15_offending_fns : list (string * string * string) :=
   map fn_id (filter (fun f =>
     (str_in (fn_name f) entry_names && negb (fn_unsafe f || negb (fn_public f))) ||
